@@ -265,6 +265,7 @@ func newKVBackends(e *sim.Env, withBolt bool) []*kvBackend {
 			bf, bdb := openBolt(e, filepath.Join(dir, name+".db"))
 			be := &kvBackend{name: name}
 			cur := bf
+			raw := bdb // the Bolt wrapper itself: its Cancel ends any transaction left open
 			if cached {
 				be.db = chain.NewCacheDB(bdb)
 			} else {
@@ -275,15 +276,16 @@ func newKVBackends(e *sim.Env, withBolt bool) []*kvBackend {
 				n++
 				cp := cur.crashCopy(e, n)
 				be.db.Cancel()
+				raw.Cancel()
 				cur.bdb.Close()
 				nbf, nbdb := openBolt(e, cp)
-				cur = nbf
+				cur, raw = nbf, nbdb
 				if cached {
 					return chain.NewCacheDB(nbdb)
 				}
 				return nbdb
 			}
-			e.OnCleanup(func() { be.db.Cancel(); cur.bdb.Close() })
+			e.OnCleanup(func() { be.db.Cancel(); raw.Cancel(); cur.bdb.Close() })
 			bes = append(bes, be)
 		}
 	}
